@@ -38,7 +38,9 @@ ANCHORS = ["ebuild/domain.py::generate_filter", "ebuild/domain.py::make_mask_fil
            "ebuild/domain.py::domain._apply_keywords_filter", "ebuild/domain.py::domain._apply_license_filter",
            "ebuild/misc.py::collapsed_restrict_to_data", "ebuild/misc.py::non_incremental_collapsed_restrict_to_data",
            "ebuild/misc.py::incremental_expansion_license", "ebuild/misc.py::incremental_expansion",
-           "repository/filtered.py::tree.itermatch"]
+           "repository/filtered.py::tree.itermatch", "ebuild/profiles.py::ProfileStack.default_env",
+           "ebuild/profiles.py::ProfileNode._parse_atom_negations", "ebuild/repo_objs.py::Licenses._expand_groups",
+           "ebuild/const.py"]
 
 ARCH = "a1"
 CATS = ("ca", "cb")
@@ -777,8 +779,10 @@ def main(chk: Check):
     rng = chk.rng
     worlds = load_corpus()
     ncorpus = len(worlds)
-    worlds += [gen_world(rng) for _ in range(chk.n(150, 4000))]
-    worlds += [gen_world(rng, malformed=True) for _ in range(chk.n(24, 500))]
+    # a changed fingerprint quadruples the quick budget (the thorough one is kept for --tier thorough)
+    boost = 4 if (chk.fingerprint_changed and not chk.thorough) else 1
+    worlds += [gen_world(rng) for _ in range(1200 if chk.thorough else 110 * boost)]
+    worlds += [gen_world(rng, malformed=True) for _ in range(150 if chk.thorough else 18 * boost)]
     import time
     t0 = time.time()
     S, cases, recs, ref_bad = evaluate_worlds(chk, worlds, "w")
@@ -794,13 +798,17 @@ def main(chk: Check):
     if ok:
         r = chk.coq_eval("worlds", IMPORTS, "world", cases,
                          ["mismatches run_both cases",
-                          "where_ (fun w r => negb (spec_world_ok w r)) cases",
-                          "mismatches run_both_pinned cases"],
-                         shard=chk.n(60, 260), preamble=S.preamble())
+                          "where_ (fun w r => negb (spec_world_ok w r)) cases"],
+                         shard=(180 if chk.thorough else 60), preamble=S.preamble())
         chk.cov["seconds_coq_cases"] = round(time.time() - t0 - chk.cov["seconds_implementation"], 1)
         if r is not None:
             a_bad, spec_bad = r[0], r[1]
-            pinned_ok = set(range(len(cases))) - set(r[2])
+            if a_bad:   # is it the pre-repair behaviour (Model_C13.visible_pinned)?
+                sub = a_bad[:40]
+                r2 = chk.coq_eval("pinned", IMPORTS, "world", [cases[i] for i in sub],
+                                  ["mismatches run_both_pinned cases"], preamble=S.preamble())
+                if r2 is not None:
+                    pinned_ok = {sub[j] for j in range(len(sub))} - {sub[j] for j in r2[0]}
     # ---- (B) concrete property failures
     reported = 0
     for b in ref_bad[:4]:
